@@ -107,11 +107,17 @@ type machine struct {
 	jsonDecBuf map[*value][]value
 	funcsHit   map[string]bool
 	stubsHit   map[string]bool
+	uniq       []uniqEntry // unique.Make intern table
 	pcH        [2]uint64 // commutative hash of the set of asserted conjuncts
 	pcSeen     map[[2]uint64]bool
 }
 
 func (m *machine) replaying() bool { return len(m.log) < len(m.prefix) }
+
+type uniqEntry struct {
+	t    types.Type
+	cell *value
+}
 
 type queryKey struct {
 	pc, ex [2]uint64
